@@ -106,6 +106,12 @@ FOCI = [
     "`_delete`, `_rename_path_for_deletion`, `_delete_marked_files`, `_create_path`, `_get_store_path`, `_get_hashstore_data_object_path` / `_get_hashstore_metadata_path` / `_get_hashstore_pid_refs_path` / `_get_hashstore_cid_refs_path`: replace the if/elif chains over the entity name by a dict or `match` dispatch with the identical mapping and the identical error for an unknown entity; keep which path is tried first and every file operation.",
     "`store_object`: split into `_store_object_with_pid` and `_store_object_without_pid` private methods called from `store_object` after the argument checks, keeping the claim of the pid, the try/except/finally coverage (what is released and logged on which path) and the order of `_store_and_validate_data` / `tag_object` exactly; rename locals for clarity.",
     "result objects: replace the plain dict returned by `_find_object` / used between `_store_and_validate_data`, `_move_and_get_checksums` and `store_object` by small `typing.NamedTuple`s (or keep tuples but name the fields), updating every producer and consumer consistently, with the same keys / values flowing into `ObjectMetadata` and the same behaviour for every caller inside the package.",
+    "the identifier claims, generic form: in `__init__` build one small table (dict) per synchronisation mode that maps a claim kind ('object_pid', 'object_cid', 'reference_pid', 'metadata_doc') to its (condition, locked list) pair - the very same Condition and list objects that the existing attributes hold, which must keep existing - and route the bodies of the `_synchronize_*` / `_release_*` / `_check_*` helpers (and, if you like, the inline claim blocks of `store_metadata` / `delete_metadata`) through two private methods `_claim(kind, identifier)` and `_unclaim(kind, identifier)` that contain the one wait-loop / append and the one remove / notify sequence. Every public or private helper keeps its name, signature, log messages and exceptions.",
+    "exception hierarchy: in `filehashstore_exceptions.py` introduce a common base class (e.g. `HashStoreError(Exception)`) that all the custom exceptions inherit from, keeping every class name, constructor signature and message behaviour; tidy the module (docstrings, a shared `__init__` in the base instead of the repeated ones). No `except` clause in `filehashstore.py` may start catching more or less than before (do NOT replace specific clauses by the new base class).",
+    "class layout: move the eight-plus lock helpers (`_synchronize_*`, `_release_*`, `_check_*locked*`) out of `FileHashStore` into a mixin class (e.g. `_IdentifierClaimsMixin`) defined in a new module `src/hashstore/_claims.py`; `FileHashStore` inherits from it (`class FileHashStore(_IdentifierClaimsMixin, HashStore)`). Bodies move verbatim; the attributes they use are still created in `FileHashStore.__init__`.",
+    "`store_metadata` / `delete_metadata`: extract the three inline metadata-document claim blocks and their release blocks into helper methods `_synchronize_metadata_locked_docs(pid_doc)` / `_release_metadata_locked_docs(pid_doc)` written exactly like the existing object helpers (multiprocessing arm and threading arm, same wait loop / append, same remove / notify, same log messages where possible), and call them at exactly the points where the inline blocks were (claim before the `try`, release in the `finally`).",
+    "small modern idioms throughout `filehashstore.py`, each one only where it is exactly equivalent: `contextlib.suppress(X)` for a `try: ... except X: pass`-style handler whose body only swallows, `any()` / `all()` / `next()` for flag loops, walrus assignments, `enumerate`, chained comparisons, `dict.get` with default, early `continue` in loops, f-strings for concatenations. Do not touch what a handler catches or re-raises.",
+    "naming: rename a handful of private helpers to clearer names consistently at definition and every call site (for example `_delete` -> `_delete_entity_file`, `_exists` -> `_entity_file_exists`, `_open` -> `_open_entity_file`, `_get_file_paths` -> `_list_directory_files`, `_mktmpfile` -> `_create_tmp_file`), and keep a thin alias with the old name ONLY where the tests call the old name directly; rename locals that shadow builtins (`file`, `dir`).",
     "`delete_metadata` and `delete_object`: reduce nesting - early returns, loop bodies extracted into private methods (e.g. `_delete_one_metadata_document(pid, path, objects_to_delete)`), keep the per-document claim / re-check / rename / release sequence and the order of `_delete_marked_files` / `delete_metadata` calls exactly.",
 ]
 
